@@ -31,15 +31,15 @@ CHECKS = {
     },
 }
 
-ALL_TARGETS = ["resurrect", "loss", "oldovernew", "badread", "crashmid", "crashapply", "vanish", "hblost", "hbkeeps", "busy",
+ALL_TARGETS = ["resurrect", "loss", "oldovernew", "crashmid", "crashapply", "vanish", "hblost", "hbkeeps", "busy",
                "read2get", "read2ids"]
-DEV_TARGETS = {"resurrect", "loss", "oldovernew", "badread"}     # reachable only through the deviation
+DEV_TARGETS = {"resurrect", "loss", "oldovernew"}     # reachable only through the deviation
 # BFS runs: (cfg suffix, targets, constant overrides)
 GROUPS = [
     ("base", ["resurrect", "loss", "oldovernew", "vanish", "busy"], {}),
     ("hb", ["hblost", "hbkeeps"], {"MaxHB": "1"}),
     ("crash", ["crashmid", "crashapply"], {"MaxCrashes": "1"}),
-    ("read", ["badread", "read2get", "read2ids"], {"MaxReads": "1"}),
+    ("read", ["read2get", "read2ids"], {"MaxReads": "1"}),
 ]
 
 
@@ -87,6 +87,9 @@ def validate_all(ctx, module, cfg, scen, tag, describe):
     while pending:
         tries += 1
         if tries > 5:
+            if ctx.violations:
+                ctx.log("more scenarios rejected; stopping after 5 reported mismatches")
+                break
             raise vlib.Infra("too many rejected scenarios")
         flat = [ln for s in pending for ln in s]
         consumed, n, printed, r = tv(ctx, module, cfg, flat, "%s-%d" % (tag, tries))
@@ -123,16 +126,34 @@ def validate_all(ctx, module, cfg, scen, tag, describe):
 
 
 def run(ctx):
+    pool = cf.ThreadPoolExecutor(max_workers=10)
+    futures = []
+    try:
+        return _run(ctx, pool, futures)
+    finally:
+        # never leave TLC / driver children behind: wait for whatever is still running (each has its own timeout)
+        for f in futures:
+            try:
+                f.result()
+            except Exception:
+                pass
+        pool.shutdown()
+
+
+def _run(ctx, pool, futures):
+    def submit(fn, *a, **kw):
+        f = pool.submit(fn, *a, **kw)
+        futures.append(f)
+        return f
     dev = ctx.deviations("D-C18")
     tag_open = TAG in dev
     ctx._specdir()
-    pool = cf.ThreadPoolExecutor(max_workers=8)
 
     # ---- 1. design-level model check (Deviations = {}) in the background
-    mcb = ctx.pick({"MaxEntries": "2", "MaxCrashes": "1", "MaxHB": "1", "MaxReads": "1"},
+    mcb = ctx.pick({"MaxEntries": "2", "MaxCrashes": "1", "MaxHB": "0", "MaxReads": "1"},
                    {"MaxEntries": "3", "MaxCrashes": "1", "MaxHB": "1", "MaxReads": "1"})
     variant(ctx, "PartOutbox.MC.cfg", "mc.PartOutbox.MC.cfg", mcb)
-    f_mc = pool.submit(ctx.tlc, "PartOutbox", "mc.PartOutbox.MC.cfg", workers=ctx.pick(6, 12), timeout=3000, count_mc=False)
+    f_mc = submit(ctx.tlc, "PartOutbox", "mc.PartOutbox.MC.cfg", workers=ctx.pick(6, 12), timeout=3000, count_mc=False)
 
     # ---- 2. schedules from the model of the code: BFS targets + random walks
     def bfs(group):
@@ -141,11 +162,11 @@ def run(ctx):
         c.update(over)
         variant(ctx, "PartOutbox.Cex.cfg", "cex-%s.cfg" % name, c)
         return ctx.tlc("PartOutboxGen", "cex-%s.cfg" % name, workers=1, timeout=1500, count_mc=False)
-    f_bfs = [pool.submit(bfs, g) for g in GROUPS]
+    f_bfs = [submit(bfs, g) for g in GROUPS]
     nwalks = ctx.pick(24, 300)
     depth = ctx.pick(26, 32)
     variant(ctx, "PartOutbox.Sim.cfg", "sim.cfg", {"Deviations": dev, "GenDepth": str(depth), "MaxEntries": ctx.pick("4", "5")})
-    f_sim = pool.submit(ctx.tlc, "PartOutboxGen", "sim.cfg", workers=1, simulate="num=%d" % nwalks, depth=depth,
+    f_sim = submit(ctx.tlc, "PartOutboxGen", "sim.cfg", workers=1, simulate="num=%d" % nwalks, depth=depth,
                         seed=ctx.seed, timeout=1500, count_mc=False)
     drv = ctx.gobuild("partoutbox")
 
@@ -165,7 +186,14 @@ def run(ctx):
     if not tag_open and any(t in found for t in DEV_TARGETS):
         raise vlib.Infra("the intended design reaches a property-violating target")
     r = f_sim.result()
-    walks = [p["steps"] for p in r.printed if isinstance(p, dict) and "steps" in p and "target" not in p]
+    # TLC evaluates Emit on every candidate successor of the last step: keep one walk per common prefix
+    walks, seenp = [], set()
+    for p in r.printed:
+        if isinstance(p, dict) and "steps" in p and "target" not in p:
+            k = json.dumps(p["steps"][:-1], sort_keys=True)
+            if k not in seenp:
+                seenp.add(k)
+                walks.append(p["steps"])
     if len(walks) < nwalks // 2:
         raise vlib.Infra("simulation produced %d of %d walks (%s)\n%s" % (len(walks), nwalks, r.outcome, r.output[-2000:]))
 
@@ -178,7 +206,7 @@ def run(ctx):
     for i, s in enumerate(scheds):
         s["id"] = i + 1
         # concretisation of the lease: short when the schedule forces an expiry, long otherwise
-        s["lease"] = 60 if any(st["a"] == "expire" for st in s["steps"]) else 600
+        s["lease"] = 150 if any(st["a"] == "expire" for st in s["steps"]) else (600 if any(st["a"] == "hb" for st in s["steps"]) else 3000)
     ctx.sample({"schedule": scheds[0]["name"], "steps": [(s["a"], s.get("w", "")) for s in scheds[0]["steps"]]})
 
     # ---- 3. force the schedules on the real code (sharded), stress leg in parallel
@@ -190,9 +218,9 @@ def run(ctx):
         vlib.write_ndjson(sf, part)
         p = ctx.run([drv, "forced", ctx.path("state-%d" % k), sf, tf], timeout=2400)
         return vlib.read_ndjson(tf), p.stdout
-    f_drv = [pool.submit(drive, k) for k in range(nshard)]
+    f_drv = [submit(drive, k) for k in range(nshard)]
     rounds = ctx.pick(6, 40)
-    f_stress = pool.submit(ctx.run, [drv, "stress", ctx.path("stress"), str(rounds), ctx.path("stress.ndjson"), "80"], timeout=2400)
+    f_stress = submit(ctx.run, [drv, "stress", ctx.path("stress"), str(rounds), ctx.path("stress.ndjson"), "80"], timeout=2400)
 
     lines, infeasible = [], 0
     for f in f_drv:
@@ -275,12 +303,12 @@ def run(ctx):
     if c == n:
         raise vlib.Infra("binding self-test failed: corrupted inner-store state accepted")
     st.append("corrupted inner store rejected at line %d" % (c + 1))
-    # (b) drop one event (the finalize)
-    bad = [ln for ln in json.loads(json.dumps(victim)) if ln["t"] != "fin"]
+    # (b) drop one event (the start of the replay)
+    bad = [ln for ln in json.loads(json.dumps(victim)) if ln["t"] != "rstart"]
     c, n, _, _ = tv(ctx, "PartOutboxTrace", "tv.cfg", bad, "self-b")
     if c == n:
-        raise vlib.Infra("binding self-test failed: dropped finalize accepted")
-    st.append("dropped finalize rejected at line %d" % (c + 1))
+        raise vlib.Infra("binding self-test failed: dropped replay start accepted")
+    st.append("dropped replay start rejected at line %d" % (c + 1))
     # (c) the intended (fenced) design must NOT explain the stale replay of the code
     if tag_open:
         v = next(s for s in scen if s[0].get("name") == "resurrect")
@@ -340,7 +368,6 @@ def run(ctx):
     ctx.log("MC PartOutbox (Deviations={}): %s, %d distinct / %d generated, depth %d, %.1fs" % (r.outcome, r.distinct, r.generated, r.depth, r.wall))
     if not r.ok():
         raise vlib.Infra("design-level model check did not pass (%s %s)\n%s" % (r.outcome, r.violated, (r.cex or r.output)[-3000:]))
-    pool.shutdown()
 
     distinct = {json.dumps(s["steps"], sort_keys=True) for s in scheds if s["id"] not in infeas
                 and any(x["a"] in ("rend", "fin") for x in s["steps"])}
